@@ -53,8 +53,8 @@ type plan struct {
 func plans() []plan {
 	return []plan{
 		{name: "bin-zstd", kind: "binary", storage: "zstd", validateAC: true, share: 5},
-		{name: "bin-raw-httpproxy", kind: "binary", storage: "uncompressed", proxy: "http", validateAC: true, share: 4},
-		{name: "bin-zstd-grpcproxy-noval", kind: "binary", storage: "zstd", proxy: "grpc", validateAC: false, share: 4},
+		{name: "bin-raw-httpproxy", kind: "binary", storage: "uncompressed", proxy: "http", validateAC: true, share: 5},
+		{name: "bin-zstd-grpcproxy-noval", kind: "binary", storage: "zstd", proxy: "grpc", validateAC: false, share: 5},
 		{name: "launch-zstd", kind: "launcher", storage: "zstd", zstdImpl: "go", validateAC: true, maxSize: 24 * lib.MiB, share: 5},
 		{name: "launch-raw", kind: "launcher", storage: "uncompressed", zstdImpl: "cgo", validateAC: true, maxSize: 24 * lib.MiB, share: 4},
 	}
@@ -64,7 +64,7 @@ func run(r *lib.Run) {
 	r.SetRule("distinct tuple = (fixture, endpoint, generator family.variant, outcome status); non-trivial = the request was journalled, sent to a live child-process server and the liveness/log probe ran after it")
 	r.Assume("a 'hang' or 'wedge' is decided by persistent state (handler goroutine still parked / /status not answering after a generous deadline and two goroutine dumps), never by latency")
 	r.Assume("open-descriptor oracle: descriptors pointing into the cache directory at quiescence are violations; other descriptor growth needs the N vs 2N re-run test")
-	total := r.N(1500, 40000)
+	total := r.N(1860, 42000)
 	if v, err := strconv.Atoi(os.Getenv("C14_N")); err == nil && v > 0 { // developer aid
 		total = v
 	}
@@ -152,30 +152,39 @@ type fixture struct {
 	recent      []journalEntry
 	logOff      int64
 
-	statusClient *http.Client
-	base         baseline
-	pool         *blobPool
-	restarts     int
-	dead         bool
-	fuzzOps      int
-	window       []*op
-	windowKinds  map[string]int
-	fdSeries     []map[string]any
-	finalSigs    map[string]int
-	lastOp       *op
-	keepJournal  bool
-	stallSeen    bool           // the FetchBlob stall finding has been established on this fixture
-	deathSeen    bool           // the death of the current child process has been reported
-	leakedFDs    map[string]int // descriptors on cache files already reported for the current child
-	slack        int            // descriptor excess over the baseline explained by bounded pools (plateaus seen)
-	leakedConns  map[string]int // connection-table trouble already reported for the current child
-	baseConns    map[string]int // connection counts of the settled warm-up state
-	deaths       map[string]int // server deaths per input class (an established crash is not repeated for ever)
+	statusClient       *http.Client
+	base               baseline
+	pool               *blobPool
+	restarts           int
+	dead               bool
+	fuzzOps            int
+	window             []*op
+	windowKinds        map[string]int
+	fdSeries           []map[string]any
+	finalSigs          map[string]int
+	lastOp             *op
+	keepJournal        bool
+	stallSeen          bool           // the FetchBlob stall finding has been established on this fixture
+	deathSeen          bool           // the death of the current child process has been reported
+	leakedFDs          map[string]int // descriptors on cache files already reported for the current child
+	slack              int            // descriptor excess over the baseline explained by bounded pools (plateaus seen)
+	leakedConns        map[string]int // connection-table trouble already reported for the current child
+	baseConns          map[string]int // connection counts of the settled warm-up state
+	deaths             map[string]int // server deaths per input class (an established crash is not repeated for ever)
+	heldSeen           int            // quietOracle findings established on this fixture
+	leakedReserved     int64          // reserved bytes / unaccounted files already reported by quietOracle for the current child
+	leakedFiles        int
+	portStolen         bool           // the child never came up: a port was taken by another process
+	leakedBackendConns int            // backend connections already reported by connCensus for the current child
+	pstats             map[string]int // proxy slices: scheduled / precondition met (see proxyEvidence)
 }
 
 func runFixture(r *lib.Run, p plan, n int) {
 	fx := &fixture{r: r, p: p, rng: r.Rng("fx/" + p.name), windowKinds: map[string]int{}}
 	fx.statusClient = &http.Client{Timeout: statusWait, Transport: &http.Transport{DisableKeepAlives: true}}
+	if devTimings {
+		defer func(t time.Time) { r.CountN("ms.fixture."+p.name, time.Since(t).Milliseconds()) }(time.Now())
+	}
 	jd := filepath.Join(lib.VerifRoot(), "replays")
 	_ = os.MkdirAll(jd, 0o755)
 	fx.journalPath = filepath.Join(jd, fmt.Sprintf("C14-seed%d-%s-%s.journal.jsonl", r.Seed, r.Tier, p.name))
@@ -201,7 +210,20 @@ func runFixture(r *lib.Run, p plan, n int) {
 		r.Inconclusive(p.name + ": cannot start child: " + err.Error())
 		return
 	}
-	if !fx.warmup() {
+	ok := fx.warmup()
+	for tries := 0; !ok && fx.portStolen && tries < 3; tries++ {
+		fx.portStolen = false
+		fx.stopChild()
+		if err := fx.startChild(); err != nil {
+			r.Inconclusive(p.name + ": cannot start child: " + err.Error())
+			return
+		}
+		ok = fx.warmup()
+	}
+	if !ok {
+		if fx.portStolen {
+			r.Inconclusive(p.name + ": the server could not bind its ports (taken by another process) in four attempts")
+		}
 		return
 	}
 	sched := newScheduler(fx)
@@ -234,6 +256,7 @@ func runFixture(r *lib.Run, p plan, n int) {
 		fx.r.Extra("goroutines."+p.name, map[string]any{"baseline": lib.SigString(fx.base.sigs), "final": lib.SigString(fx.finalSigs)})
 		fx.r.Extra("fds."+p.name, fx.fdSeries)
 	}
+	fx.proxyEvidence()
 }
 
 // ---------------------------------------------------------------------------
@@ -304,6 +327,7 @@ func (fx *fixture) startChildOnce() error {
 	fx.deathSeen = false
 	fx.leakedFDs = map[string]int{}
 	fx.leakedConns = map[string]int{}
+	fx.leakedReserved, fx.leakedFiles, fx.leakedBackendConns = 0, 0, 0
 	fx.logOff = 0
 	fx.srv = lib.AttachServer(c.HTTPAddr, c.GRPCAddr)
 	fx.srv.HTTPClient.Timeout = 0 // per-request contexts carry the deadline
@@ -358,6 +382,9 @@ func (fx *fixture) recover() {
 	fx.window = nil
 	fx.windowKinds = map[string]int{}
 	if !fx.warmup() {
+		if fx.portStolen {
+			fx.r.Inconclusive(fx.p.name + ": the restarted server could not bind its ports (taken by another process)")
+		}
 		fx.dead = true
 	}
 }
